@@ -49,7 +49,7 @@ def main(argv=None) -> int:
             rc = 0
             for p in PROPS:
                 if os.path.exists(os.path.join(VERIF, "sa", "rules", f"{p.lower()}.py")):
-                    r, _ = run_property(p, a.tier, a.repo)
+                    r, _ = run_property(p, a.tier, a.repo, write_evidence=os.path.realpath(a.repo) == "/repo")
                     rc = max(rc, r)
             return rc
         prop = a.what.upper()
@@ -70,7 +70,8 @@ def main(argv=None) -> int:
                 return 1
             print(f"not reproduced on the current tree: {rp['key']}")
             return 0
-        rc, _ = run_property(prop, a.tier, a.repo)
+        # evidence describes /repo's current tree only: a run against a scratch copy (--repo) leaves the committed evidence alone
+        rc, _ = run_property(prop, a.tier, a.repo, write_evidence=os.path.realpath(a.repo) == "/repo")
         return rc
     except AnalysisError as e:
         print(f"ANALYSIS-ERROR property={a.what} {e}")
